@@ -30,3 +30,6 @@ func ResetCallIndex() {}
 
 // SetupRefused exists only because run.go is shared verbatim with simL.
 type SetupRefused struct{ Msg string }
+
+// installWorldDraws exists only because run.go is shared verbatim with simL.
+func installWorldDraws(r *Run) {}
